@@ -79,14 +79,14 @@ Inductive Exposed (R : Rset) (g : string) (k : option string) (v : json) : atree
 Inductive NodePath (g : string) : atree -> string -> Prop :=
 | np_item_here items pre post salt s :
     items = (pre ++ (IHid salt, s) :: post)%list -> g = dig_item salt s ->
-    NodePath g (AArr items) ("/" ++ show_nat (List.length pre))
+    NodePath g (AArr items) ("/" ++ esc_tok (show_nat (List.length pre)))
 | np_item_in items pre post ik s suffix :
     items = (pre ++ (ik, s) :: post)%list -> NodePath g s suffix ->
-    NodePath g (AArr items) ("/" ++ show_nat (List.length pre) ++ suffix)
+    NodePath g (AArr items) ("/" ++ esc_tok (show_nat (List.length pre)) ++ suffix)
 | np_mem_here mems name salt s :
-    In (name, (MHid salt, s)) mems -> g = dig_mem salt name s -> NodePath g (AObj mems) ("/" ++ name)
+    In (name, (MHid salt, s)) mems -> g = dig_mem salt name s -> NodePath g (AObj mems) ("/" ++ esc_tok name)
 | np_mem_in mems name mk s suffix :
-    In (name, (mk, s)) mems -> NodePath g s suffix -> NodePath g (AObj mems) ("/" ++ name ++ suffix).
+    In (name, (mk, s)) mems -> NodePath g s suffix -> NodePath g (AObj mems) ("/" ++ esc_tok name ++ suffix).
 
 Lemma Exposed_arr_inv R g k v items : Exposed R g k v (AArr items) ->
   (exists salt s, In (IHid salt, s) items /\ g = dig_item salt s /\ R g = false /\ k = None /\ v = blind s) \/
